@@ -319,7 +319,8 @@ def r10_9(run, model):
                 continue
             found = True
             fixed = [st["segs"][-1] for st in S.find(arm["body"], "Struct") if len(st["segs"]) >= 2 and st["segs"][-2] == "Prim"]
-            uses_ty = any(c["k"] in ("Call", "MethodCall") and any("ty" in S.idents(a) for a in c["args"]) and
+            # (the recorded type under whatever name the arm gives it: `ty`, `scrutinee_int_ty`, ..)
+            uses_ty = any(c["k"] in ("Call", "MethodCall") and any(re.search(r"(^|_)ty$", i_) for a in c["args"] for i_ in S.idents(a)) and
                           re.search(r"prim|literal|int", S.callee_name(c) or "", re.I) for c in S.walk(arm["body"]))
             ok = (not dynamic) or (uses_ty and not fixed)
             run.ob("R10.9", "build_pat|unsuffixed integer pattern built at the recorded type", ok, site(BUILD, arm["sp"]),
